@@ -224,12 +224,36 @@ def runLabel (j : Json) : R Json := do
     else DotText.resultAttr t.toList name.toList group.toList
   pure (Json.mkObj [("text", Json.str (String.ofList text))])
 
+/-- K-tags request: the parsers and validators of the reflect layer on their own -/
+def runTag (j : Json) : R Json := do
+  let what ← jstr j "what"
+  let errName : DErr → String := fun e => match e with | .groupOpt => "groupOpt" | _ => "invalid"
+  let res (err : String) (name : String) (fl so v : Bool) : Json :=
+    Json.mkObj [("err", Json.str err), ("name", Json.str name), ("flatten", fl), ("soft", so), ("val", v)]
+  if what == "group" then
+    let s ← jstr j "s"
+    match parseGroupString s with
+    | .ok g => pure (res "" g.name g.flatten g.soft false)
+    | .error e => pure (res (errName e) "" false false false)
+  else if what == "optional" || what == "ignore-unexported" then
+    let s ← jstr j "s"
+    match boolTag s with
+    | .ok b => pure (res "" "" false false b)
+    | .error e => pure (res (errName e) "" false false false)
+  else
+    let name ← jstr j "name"
+    let group ← jstr j "group"
+    match validateOpts [] { name := name, group := group } with
+    | .ok _ => pure (res "" "" false false false)
+    | .error e => pure (res (errName e) "" false false false)
+
 def handleLine (line : String) : String :=
   match Json.parse line with
   | .error e => (Json.mkObj [("error", Json.str e)]).compress
   | .ok j =>
     match jstr j "kind" with
     | .ok "graph" => (match runGraph j with | .ok r => r.compress | .error e => (Json.mkObj [("error", Json.str e)]).compress)
+    | .ok "tag" => (match runTag j with | .ok r => r.compress | .error e => (Json.mkObj [("error", Json.str e)]).compress)
     | .ok "label" => (match runLabel j with | .ok r => r.compress | .error e => (Json.mkObj [("error", Json.str e)]).compress)
     | _ =>
       match decProgram j with
